@@ -82,7 +82,7 @@ func (fr *Frame) exec(in ssa.Instruction) {
 			fr.ex.valCells[cellKey(p)] = iv
 			return
 		}
-		if tp, isP := val.(PtrV); isP && len(tp.Path) == 0 && !p.Cell.Dyn && !tp.Cell.Param {
+		if tp, isP := val.(PtrV); isP && !p.Cell.Dyn && (len(tp.Path) == 0 && !tp.Cell.Param || p.Cell.Name == "varargs") {
 			// pointer to a local cell stored into a field: remember the alias
 			var keep []ptrAlias
 			for _, al := range fr.ex.ptrAliases {
@@ -123,7 +123,7 @@ func (fr *Frame) exec(in ssa.Instruction) {
 			return // arguments of fmt.Errorf and friends are not modelled
 		}
 		if want := sortAtPath(p); want != nil && want != t.Sort {
-			ex.oos("%s: store sort mismatch at %s", shortName(fr.fn.String()), fr.pos(in))
+			ex.oos("%s: store sort mismatch at %s (%s into %s)", shortName(fr.fn.String()), fr.pos(in), t.Sort.Name, want.Name)
 			return
 		}
 		fr.store(p, t)
@@ -343,6 +343,7 @@ func (fr *Frame) execUnOp(x *ssa.UnOp) {
 				}
 			}
 			t := fr.load(p)
+			t = retype(t, x.Type())
 			fr.set(x, TV{Typed(t, x.Type()), x.Type()})
 		case ValPtr:
 			fr.set(x, TV{Typed(p.Root, x.Type()), x.Type()})
@@ -787,6 +788,29 @@ func (fr *Frame) execTypeAssert(x *ssa.TypeAssert) {
 			return
 		}
 	}
+	if tv, ok := v.(TV); ok && unionCases[tv.T.Sort] != nil {
+		if it, isI := x.AssertedType.Underlying().(*types.Interface); isI {
+			all := true
+			for _, uc := range unionCases[tv.T.Sort] {
+				if !types.Implements(uc.Typ, it) {
+					all = false
+				}
+			}
+			if all {
+				// every implementer of the sealed interface implements the asserted one:
+				// the assertion succeeds iff the value is non-nil; the value stays a union
+				nonNil := Not(IsCtor(tv.T.Sort.Ctors[0], tv.T))
+				res := TV{tv.T, x.AssertedType}
+				if x.CommaOk {
+					fr.set(x, TupleV{res, TV{nonNil, types.Typ[types.Bool]}})
+				} else {
+					fr.safety(x, "typeassert", nonNil)
+					fr.set(x, res)
+				}
+				return
+			}
+		}
+	}
 	iv, ok := v.(IfaceV)
 	if !ok {
 		fr.opaque(x, "type assert on symbolic interface")
@@ -906,4 +930,30 @@ func multiReturn(f *ssa.Function) bool {
 		}
 	}
 	return n > 1
+}
+
+// retype converts a struct term to the datatype of another named type with the same underlying
+// struct (a pointer conversion such as (*V2TransactionSemantics)(txn) followed by a load).
+func retype(x *Term, to types.Type) (r *Term) {
+	defer func() {
+		if recover() != nil {
+			r = x
+		}
+	}()
+	if x == nil {
+		return x
+	}
+	ts := SortOf(to)
+	if x.Sort == ts {
+		return x
+	}
+	if tu, ok := to.Underlying().(*types.Struct); ok && x.Sort.Kind == KDT && len(x.Sort.Ctors) == 1 && len(x.Sort.Ctors[0].Fields) == tu.NumFields() && len(ts.Ctors) == 1 {
+		fc, tc := x.Sort.Ctors[0], structCtor(to)
+		args := make([]*Term, tu.NumFields())
+		for i := range args {
+			args[i] = retype(SelField(fc, i, x), tu.Field(i).Type())
+		}
+		return MkCtor(tc, args...)
+	}
+	return x
 }
